@@ -80,6 +80,11 @@ type kase struct {
 	FlipStore uint64 `json:"flip_store,omitempty"`
 	FlipTo    string `json:"flip_to,omitempty"`
 	FlipAt    int    `json:"flip_at,omitempty"`
+	// the same for a cluster-wide setting: QueryFlip ("feature", "joint-config", "placement-rules",
+	// "location-labels") is toggled away from QueryBase just before the QueryFlipAt-th cluster query.
+	QueryFlip   string     `json:"query_flip,omitempty"`
+	QueryFlipAt int        `json:"query_flip_at,omitempty"`
+	QueryBase   *queryBase `json:"query_base,omitempty"`
 }
 
 func metaRole(r string) metapb.PeerRole {
